@@ -35,7 +35,7 @@ def harvest(wt, pid):
         dst = os.path.join(SEEDED, '%s-%s' % (pid, k))
         os.makedirs(dst, exist_ok=True)
         for f in os.listdir(src):
-            if f in ('patch.diff', 'demo.cpp', 'demo.sh', 'meta.json') or f.endswith(('.h', '.hpp')):
+            if f in ('patch.diff', 'demo.cpp', 'demo.sh', 'meta.json') or f.endswith(('.h', '.hpp', '.inc')):
                 shutil.copy(os.path.join(src, f), os.path.join(dst, f))
         print('harvested', dst)
 
@@ -127,7 +127,7 @@ def harvest_benign(wt, pid):
         dst = os.path.join(BENIGN, '%s-%s' % (pid, k))
         os.makedirs(dst, exist_ok=True)
         for f in os.listdir(src):
-            if f in ('patch.diff', 'demo.cpp', 'demo.sh', 'meta.json') or f.endswith(('.h', '.hpp')):
+            if f in ('patch.diff', 'demo.cpp', 'demo.sh', 'meta.json') or f.endswith(('.h', '.hpp', '.inc')):
                 shutil.copy(os.path.join(src, f), os.path.join(dst, f))
         print('harvested', dst)
 
